@@ -147,6 +147,49 @@ def r16_1(ctx):
                   fn=g, at=pushes[0][4].get('span'))
     if n_chk == 0:
         ctx.undecided(R, 'test-before-step', 'no stepping path recognised', fn=g)
+    # which transition a step follows: the LAST one whose output does not exceed the remaining value.  (That this greedy choice is
+    # right for monotone maps is the builder argument of DESIGN.md; that the code makes THIS choice is decided here.)
+    sel = None
+    for p in explore(g, max_visits=1, havoc=True):
+        for (k, bid, callee, args, t) in path_calls(p, expand=False):
+            if isinstance(callee, str) and callee.endswith('Iterator::take_while') and len(args) == 2 and args[1][0] == 'closure':
+                sel = (args[1][1], t)
+        if sel:
+            break
+    if sel is None or sel[0] not in lib.fns:
+        ctx.undecided(R, 'step-choice', 'the transition to follow is not selected by take_while(..).last(): form not decided', fn=g)
+    else:
+        cl = lib.fns[sel[0]]
+        pickers = set()
+        for p in explore(g, max_visits=1, havoc=True):
+            for (k, bid, callee, args, t) in path_calls(p, expand=False):
+                if isinstance(callee, str) and args and any(x[0] == 'call' and isinstance(x[1], str) and x[1].endswith('Iterator::take_while') for x in walk(args[0])) and callee.startswith('std::iter::Iterator::'):
+                    if args[0][0] == 'call' and args[0][1].endswith('Iterator::take_while'):
+                        pickers.add(callee.rsplit('::', 1)[-1])
+        if pickers and pickers != {'last'}:
+            ctx.violation(R, 'step-choice', 'the transition followed is picked with %s() from the prefix of transitions whose output fits: it must be the LAST of them (the greatest key prefix not exceeding the value)' % sorted(pickers - {'last'})[0], fn=g, at=sel[1].get('span'))
+        verdict = None
+        for p in explore(cl, max_visits=1):
+            if p.end != 'return':
+                continue
+            rv = p.ret()
+            while rv[0] == 'cast':
+                rv = rv[1]
+            if rv[0] == 'bin' and rv[1] in ('Le', 'Lt', 'Ge', 'Gt', 'Eq', 'Ne'):
+                l_out = any(x[0] == 'field' and x[2] == 'out' for x in walk(rv[2]))
+                r_out = any(x[0] == 'field' and x[2] == 'out' for x in walk(rv[3]))
+                l_cap = any(x[0] == 'param' and x[2] == 1 for x in walk(rv[2]))
+                r_cap = any(x[0] == 'param' and x[2] == 1 for x in walk(rv[3]))
+                if l_out and r_cap and not (r_out or l_cap):
+                    verdict = 'ok' if rv[1] == 'Le' else 'output %s remaining value' % rv[1]
+                elif r_out and l_cap and not (l_out or r_cap):
+                    verdict = 'ok' if rv[1] == 'Ge' else 'remaining value %s output' % rv[1]
+        if verdict is None:
+            ctx.undecided(R, 'step-choice', 'the selecting predicate is not a comparison of a transition output with the remaining value', fn=cl)
+        elif verdict == 'ok':
+            ctx.check(R, pickers == {'last'} or not pickers, 'step-choice', '', fn=g)
+        else:
+            ctx.violation(R, 'step-choice', 'a step must follow the last transition whose output is <= the remaining value; the predicate is "%s": a transition whose output equals the remaining value (every key whose last outputs are zero) is handled wrongly' % verdict, fn=cl)
     return g
 
 
